@@ -19,6 +19,28 @@ fn pool(rng: &mut Rng, corpus: &Corpus, n: usize) -> Vec<(Vec<u8>, NormalizerSet
         let b = encode_text(&t, enc).filter(|b| !b.is_empty()).unwrap_or_else(|| t.as_bytes().to_vec());
         base.push(b);
     }
+    // texts whose analysis leaves a detector in the middle of something: a messy prefix of 24..31 / 56..63 / 120..127
+    // characters followed by one long word, so that an early exit at the 32nd / 64th / 128th character falls INSIDE
+    // a word; and prose in which words carry symbols, digits and accents (every plugin has something to count)
+    for k in 0..6 {
+        let pre = [24usize, 28, 31, 56, 60, 124][k % 6] + rng.below(3);
+        let mut t: String = (0..pre).map(|_| *rng.pick(&['!', '?', ';', '%', '#', '|', '~', '^', '{', '}', '\u{a7}', '\u{b6}'])).collect();
+        t.push_str("abcdefghijklmnopqrstuvwxyzabcdefghijklmnopqrstuvwxyz and some more words after it");
+        base.push(t.into_bytes());
+    }
+    for _ in 0..4 {
+        let t = rng.pick(&corpus.texts);
+        let mut words: Vec<String> = t.split_whitespace().skip(rng.below(20)).take(rng.range(12, 40)).map(|w| w.to_string()).collect();
+        for _ in 0..rng.range(1, 5) {
+            if words.is_empty() { break; }
+            let i = rng.below(words.len());
+            let w: Vec<char> = words[i].chars().collect();
+            let cut = rng.below(w.len() + 1);
+            let sym = *rng.pick(&['$', '@', '=', '+', '<', '7', '\u{e9}', '_']);
+            words[i] = w[..cut].iter().chain(std::iter::once(&sym)).chain(w[cut..].iter()).collect();
+        }
+        base.push(words.join(" ").into_bytes());
+    }
     let mut out = vec![];
     for b in &base {
         let d = default_settings();
@@ -50,9 +72,12 @@ pub fn run_memo(seed: u64, histories: usize, out: &str) -> serde_json::Value {
     let mut violations = vec![];
     let mut evals = 0u64;
     // cold references
+    // each reference is computed on cold caches in a FRESH thread (pristine thread-local state as well), the
+    // histories run on this long-lived thread
     let refs: Vec<Vec<String>> = p.iter().map(|(b, s)| {
         hooks::flush_caches();
-        outcome_lines(&run_real(b, s))
+        let (b, s) = (b.clone(), s.clone());
+        std::thread::spawn(move || outcome_lines(&run_real(&b, &s))).join().unwrap_or_else(|_| vec!["R PANIC (reference thread)".to_string()])
     }).collect();
     let nontrivial = refs.iter().filter(|r| r.len() > 1).count() as u64;
     let mut samples = vec![];
@@ -84,6 +109,43 @@ pub fn run_memo(seed: u64, histories: usize, out: &str) -> serde_json::Value {
         }
         if samples.len() < 3 {
             samples.push(json!({"history_of_pool_indices": hist, "with_eviction": evict}));
+        }
+    }
+    // the UNCACHED bodies must be functions of their arguments: a long sequence of calls on this thread (early exits,
+    // every plugin exercised) against the value the same call returns in a fresh thread
+    {
+        let mut texts: Vec<String> = vec![];
+        for (b, _) in p.iter() {
+            if let Ok(t) = std::str::from_utf8(b) { texts.push(t.chars().take(400).collect()); }
+        }
+        for _ in 0..30 {
+            let t = rng.pick(&corpus.texts);
+            texts.push(t.chars().skip(rng.below(300)).take(rng.range(1, 300)).collect());
+        }
+        let thrs = [0.0f32, 0.05, 0.2, 1.0, 10.0];
+        let calls: Vec<(usize, f32)> = (0..400).map(|_| (rng.below(texts.len()), *rng.pick(&thrs))).collect();
+        let mut fresh: std::collections::BTreeMap<(usize, u32), (u32, String)> = std::collections::BTreeMap::new();
+        for (i, thr) in calls.iter() {
+            fresh.entry((*i, thr.to_bits())).or_insert_with(|| {
+                let t = texts[*i].clone();
+                let thr = *thr;
+                std::thread::spawn(move || {
+                    let m = fbits(hooks::mess_ratio_no_cache(t.clone(), Some(thr)));
+                    let c = match hooks::coherence_ratio_no_cache(t, Some(0.1), Some(vec![])) { Ok(c) => coh_str(&c), Err(_) => "ERR".to_string() };
+                    (m, c)
+                }).join().unwrap_or((u32::MAX, "PANIC".to_string()))
+            });
+        }
+        for (step, (i, thr)) in calls.iter().enumerate() {
+            evals += 1;
+            let m = fbits(hooks::mess_ratio_no_cache(texts[*i].clone(), Some(*thr)));
+            let c = match hooks::coherence_ratio_no_cache(texts[*i].clone(), Some(0.1), Some(vec![])) { Ok(c) => coh_str(&c), Err(_) => "ERR".to_string() };
+            let (fm, fc) = &fresh[&(*i, thr.to_bits())];
+            if m != *fm || &c != fc {
+                violations.push(json!({"prop": "C11", "what": format!("call {} of a sequence of uncached mess_ratio / coherence_ratio calls differs from the same call in a fresh thread: mess bits {} vs {}, coherence {} vs {} (hidden state survives between calls)", step, m, fm, c, fc),
+                    "known": null, "case": {"text_hex": hex(texts[*i].as_bytes()), "threshold": thr, "calls_before": calls[..step].iter().map(|(j, t)| json!([hex(texts[*j].as_bytes()), t])).collect::<Vec<_>>()}}));
+                break;
+            }
         }
     }
     // the memoised primitives against their uncached bodies, same text under different thresholds
